@@ -40,12 +40,22 @@ func resultDecoders(c *Ctx, p *core.Program) []*ssa.Function {
 func ruleResetBefore(c *Ctx, p *core.Program, rule string) {
 	c.R.Rule(rule, "in Results.DecodeResult and Results.decodeAuto, Reset() of the target column dominates DecodeState/DecodeColumn, and lies on every path from the accepted type check to the end of the iteration - also for zero-row blocks, whose targets must end up empty")
 	cfg := p.Cfg.Name
-	for _, fn := range resultDecoders(c, p) {
+	decoders := resultDecoders(c, p)
+	for _, fn := range decoders {
 		root := fn
+		decodeHelpers := map[*ssa.Function]bool{}
 		// the per-column part may live in a method called for each column
 		if len(core.FindCalls(fn, isColMethod("DecodeColumn"))) == 0 {
 			for _, call := range core.Calls(fn) {
 				if sf := core.StaticFn(call); sf != nil && sf.Blocks != nil && pkgOf(sf) != nil && pkgOf(sf).Path() == core.PkgProto && len(core.FindCalls(sf, isColMethod("DecodeColumn"))) > 0 {
+					if sf == decoders[0] || sf == decoders[1] {
+						continue // the other result decoder, judged on its own
+					}
+					if len(core.FindCalls(sf, isColMethod("Reset"))) == 0 && len(core.FindCalls(root, isColMethod("Reset"))) > 0 {
+						// only the reading is in the helper; the reset stays here and must dominate the helper call
+						decodeHelpers[sf] = true
+						continue
+					}
 					fn = sf
 				}
 			}
@@ -58,8 +68,18 @@ func ruleResetBefore(c *Ctx, p *core.Program, rule string) {
 		}
 		isReset := func(in ssa.Instruction) bool { return core.IsCallOf(in, isColMethod("Reset")) }
 		bad := false
-		for _, name := range []string{"DecodeColumn", "DecodeState"} {
-			for _, call := range core.FindCalls(fn, isColMethod(name)) {
+		for _, name := range []string{"DecodeColumn", "DecodeState", "helper"} {
+			sites := core.FindCalls(fn, isColMethod(name))
+			if name == "helper" {
+				sites = nil
+				for _, call := range core.Calls(fn) {
+					if sf := core.StaticFn(call); sf != nil && decodeHelpers[sf] {
+						sites = append(sites, call)
+					}
+				}
+				name = "the decoding helper"
+			}
+			for _, call := range sites {
 				w := core.ReachAvoiding(core.Entry(fn), func(in ssa.Instruction) bool { return in == call.(ssa.Instruction) }, isReset, nil)
 				// paths around the loop: the reset of the previous iteration does not count; require dominance within the iteration
 				dom := false
